@@ -1,8 +1,111 @@
 //! Verification hook (compiled only with `--cfg quinn_rs_quinn_verif`).
+//!
+//! Component: `ack_frequency` — the real [`AckFrequencyState`]. Durations are integer
+//! microseconds. The peer's transport parameters enter through `min_ack_delay` (microseconds,
+//! `-1` = absent) and `max_ack_delay` (the constructor argument, as `get_max_ack_delay` passes it).
+//!
+//! ops (a default state `new(25 ms)` exists before op 0):
+//!   [0, default_max_ack_delay_us]                 AckFrequencyState::new
+//!   [1, rtt_us, cfg_max_ack_delay_us | -1, peer_min_ack_delay_us | -1]
+//!                                                 candidate_max_ack_delay -> [0, delay_us]
+//!   [2]                                           next_sequence_number -> [0, seq]
+//!   [3, pn, requested_us]                         ack_frequency_sent -> [0]
+//!   [4, pn]                                       on_acked -> [0]
+//!   [5, seq, ack_eliciting_threshold, request_max_ack_delay_us, reordering_threshold]
+//!                                                 ack_frequency_received
+//!                                                   -> [0, processed as 0/1] | [1, error code]
+//!   [6, rtt_us, cfg_max_ack_delay_us | -1, peer_min_ack_delay_us | -1]
+//!                                                 should_send_ack_frequency -> [0] (the boolean is
+//!                                                 float-derived and not reported)
+//! every observation is followed by the state projection
+//!   [.., peer_max_ack_delay_us, max_ack_delay_us, max_ack_delay_for_pto_us]
+//! A panic (e.g. `Duration::clamp` with min > max) turns the whole case into `[[-999]]`.
 #![allow(missing_docs, dead_code, unused_imports, unreachable_pub, clippy::all)]
 use super::{Ops, Outs};
+use crate::{
+    AckFrequencyConfig, Duration, Instant, VarInt,
+    connection::{ack_frequency::AckFrequencyState, spaces::PacketSpace},
+    frame::AckFrequency,
+    transport_parameters::TransportParameters,
+};
+
+fn config(max_ack_delay: i128) -> AckFrequencyConfig {
+    let mut c = AckFrequencyConfig::default();
+    if max_ack_delay >= 0 {
+        c.max_ack_delay(Some(Duration::from_micros(max_ack_delay as u64)));
+    }
+    c
+}
+
+fn params(min_ack_delay: i128) -> TransportParameters {
+    let mut p = TransportParameters::default();
+    if min_ack_delay >= 0 {
+        p.min_ack_delay = Some(VarInt::from_u64(min_ack_delay as u64).unwrap());
+    }
+    p
+}
+
+fn ack_frequency(ops: &Ops) -> Outs {
+    let mut s = AckFrequencyState::new(Duration::from_millis(25));
+    let mut pending_acks = PacketSpace::new(Instant::now()).pending_acks;
+    ops.iter()
+        .map(|op| {
+            let mut o: Vec<i128> = match op[0] {
+                0 => {
+                    s = AckFrequencyState::new(Duration::from_micros(op[1] as u64));
+                    vec![0]
+                }
+                1 => {
+                    let d = s.candidate_max_ack_delay(
+                        Duration::from_micros(op[1] as u64),
+                        &config(op[2]),
+                        &params(op[3]),
+                    );
+                    vec![0, d.as_micros() as i128]
+                }
+                2 => vec![0, s.next_sequence_number().into_inner() as i128],
+                3 => {
+                    s.ack_frequency_sent(op[1] as u64, Duration::from_micros(op[2] as u64));
+                    vec![0]
+                }
+                4 => {
+                    s.on_acked(op[1] as u64);
+                    vec![0]
+                }
+                5 => {
+                    let frame = AckFrequency {
+                        sequence: VarInt::from_u64(op[1] as u64).unwrap(),
+                        ack_eliciting_threshold: VarInt::from_u64(op[2] as u64).unwrap(),
+                        request_max_ack_delay: VarInt::from_u64(op[3] as u64).unwrap(),
+                        reordering_threshold: VarInt::from_u64(op[4] as u64).unwrap(),
+                    };
+                    match s.ack_frequency_received(&frame, &mut pending_acks) {
+                        Ok(b) => vec![0, b as i128],
+                        Err(e) => vec![1, u64::from(e.code) as i128],
+                    }
+                }
+                6 => {
+                    let _ = s.should_send_ack_frequency(
+                        Duration::from_micros(op[1] as u64),
+                        &config(op[2]),
+                        &params(op[3]),
+                    );
+                    vec![0]
+                }
+                _ => return vec![-1],
+            };
+            o.push(s.peer_max_ack_delay.as_micros() as i128);
+            o.push(s.max_ack_delay.as_micros() as i128);
+            o.push(s.max_ack_delay_for_pto().as_micros() as i128);
+            o
+        })
+        .collect()
+}
 
 /// Interpret `ops` for component `comp`; `None` if `comp` is not served by this module.
-pub(crate) fn run(_comp: &str, _ops: &Ops) -> Option<Outs> {
-    None
+pub(crate) fn run(comp: &str, ops: &Ops) -> Option<Outs> {
+    match comp {
+        "ack_frequency" => Some(ack_frequency(ops)),
+        _ => None,
+    }
 }
